@@ -247,8 +247,10 @@ fn main() {
     let mut setts: Vec<Setting> = Vec::new();
     for (_, m) in &menu {
         for r in [None, Some(0.75), Some(1.3), Some(1.234)] {
-            for (ar, od) in [(None, None), (Some((9.3, true)), Some((8.5, false))), (Some((9.3, false)), Some((8.5, true))), (Some((-3.0, false)), Some((11.0, true)))] {
-                setts.push(Setting { mods: m.clone(), rate: r, ar, od, cs: None, hp: if ar.is_some() { Some((6.5, od.is_some_and(|o| o.1))) } else { None }, hr_offsets: None, lazer: None, passed: None });
+            for (ar, od) in [(None, None), (Some((9.3, true)), Some((9.3, false))), (Some((9.3, false)), Some((8.5, true))), (Some((-3.0, false)), Some((11.0, true)))] {
+                for lazer in [None, Some(false)] {
+                    setts.push(Setting { mods: m.clone(), rate: r, ar, od, cs: None, hp: if ar.is_some() { Some((6.5, od.is_some_and(|o| o.1))) } else { None }, hr_offsets: None, lazer, passed: None });
+                }
             }
         }
     }
